@@ -382,18 +382,43 @@ func (s *SolverSet) race(script string, vars []*Term, wantModel bool, ft feat) (
 		cands = append(cands, cand{"cvc5", "cvc5", []string{"--incremental", tl}})
 		cands = append(cands, cand{"cvc5-int", "cvc5", []string{"--incremental", tl, "--solve-bv-as-int=sum"}})
 	}
-	ch := make(chan raceRes, len(cands))
-	for _, c := range cands {
-		c := c
-		go func() {
-			r, m, _ := s.oneShot(ctx, c.bin, c.args, script, vars, wantModel, s.HardMs)
-			ch <- raceRes{r, m, c.who}
-		}()
+	// two stages, so that at most two solver processes run per query
+	stages := [][]cand{cands}
+	if len(cands) > 2 {
+		first := []cand{cands[0], cands[1]}
+		if ft.nonlin && !ft.fp {
+			first = []cand{cands[0], cands[2]} // z3-new + cvc5-int
+		}
+		var rest []cand
+		for _, c := range cands {
+			if c.who != first[0].who && c.who != first[1].who {
+				rest = append(rest, c)
+			}
+		}
+		stages = [][]cand{first, rest}
 	}
-	for range cands {
-		rr := <-ch
-		if rr.r != Unknown {
-			return rr.r, rr.m, rr.who
+	for _, stage := range stages {
+		ch := make(chan raceRes, len(stage))
+		sctx, scancel := context.WithCancel(ctx)
+		for _, c := range stage {
+			c := c
+			go func() {
+				r, m, _ := s.oneShot(sctx, c.bin, c.args, script, vars, wantModel, s.HardMs)
+				ch <- raceRes{r, m, c.who}
+			}()
+		}
+		var win *raceRes
+		for range stage {
+			rr := <-ch
+			if rr.r != Unknown && win == nil {
+				w := rr
+				win = &w
+				scancel()
+			}
+		}
+		scancel()
+		if win != nil {
+			return win.r, win.m, win.who
 		}
 	}
 	return Unknown, nil, "none"
